@@ -248,6 +248,27 @@ def run(rep_in=None, ctx_in=None, only_transform=False):
         o.verdict, o.detail = "inconclusive", str(ex)
         rep.add(o)
 
+    # ---------------------------------------------------------------- Drop for Transform: the per-run temp dir goes away with its contents
+    try:
+        fs_ = [f for f in prog.by_last.get("drop", []) if prog.impl_info(f)[1] == "Transform"]
+        if len(fs_) != 1:
+            raise Inconclusive("Drop impl of Transform: %d found" % len(fs_))
+        engd = oblig.engine(prog, unroll=0, inline=None)
+        psd = engd.run(fs_[0], args=[Ref("tr", (), True)], mem={"tr": Lazy("transform", "Transform")})
+
+        def dprop(p):
+            if p.status != "return":
+                return None
+            rm = called(p, r"(^|::)remove_dir_all$")
+            st = _st(p)
+            return z3.BoolVal(len(rm) == 1 and "tmp_dir" in summaries.canon(engd, st, rm[0].args[0]))
+        finish(oblig.check_paths(engd, psd, "Drop for Transform: the per-run temp dir is removed recursively (whatever a transform program left next to its private copies goes with it)",
+                                 dprop, oblig.fnames(engd), key="transform:drop-removes-temp-dir"))
+    except Inconclusive as ex:
+        o = Obligation("Drop for Transform", "E2 mirsym/z3")
+        o.verdict, o.detail = "inconclusive", str(ex)
+        rep.add(o)
+
     if only_transform:
         return rep
 
